@@ -10,7 +10,8 @@ RULE = ('stream full: frames of the layered model (Ethernet, 0..2 VLAN tags with
         'cuts: EVERY capture length 0..len of such frames: implementation == model, and every field the implementation '
         'reports equals the complete frame\'s value or is absent (repeated fields: a prefix) -- etype and vlan_id excepted, '
         'which report the last tag seen; ignored bytes: frames that differ only in header bytes or bits a receiver ignores (reserved octet of the fragment header, checksums, TCP sequence / acknowledgement / window / urgent, UDP length, IPv4 total length, IPv6 payload length, SRH flags and tag, MPLS traffic-class bits) must be dissected into the same message (implementation alone); dispatch sweeps: all 65536 ethertypes after Ethernet, all 256 protocols after '
-        'IPv4 and IPv6 (exhaustive). non-trivial = at least three layers recognised; distinct by input bytes')
+        'IPv4 and IPv6 (exhaustive). non-trivial = at least three layers recognised; distinct by input bytes'
+        ' The two paths a sampled frame really takes: every frame of a sample travels as the raw packet header record of an sFlow flow sample and as an IPFIX dataLinkFrameSection value (element 315), captured at EVERY length, through the real sflow:// and netflow:// pipes; judged on the implementation\'s outputs alone (cut capture vs complete capture: equal / absent / prefix; what a shorter capture reported the longer one reports too) and, for IPFIX, compared with the model.')
 TRUSTED = ['Coq 8.16.1 kernel (coqc), vm_compute in Examples', 'extraction + ocaml/main.ml glue',
            'Go harness harness/pkt.go, bin/engine.py',
            'modelled, not verified: producer/proto/producer_packet.go']
@@ -230,33 +231,65 @@ def run(chk):
             return None
         cols = {}
         for i in range(3, len(f) - 1, 2):
-            if f[i] == '|':
+            if f[i] in ('|', 'm'):      # the first message (the padding behind a short IPFIX value decodes as further, empty records)
                 break
             cols.setdefault(f[i], []).append(f[i + 1])
         return cols
-    sfl, meta = [], []
+    def u16(x):
+        return x.to_bytes(2, 'big')
+
+    def ipfix_dgram(cap):
+        # template 256 = one variable-length dataLinkFrameSection (element 315); one record: length prefix (1 or 3
+        # octets, RFC 7011 section 7) + the captured bytes; the data set padded to a multiple of four
+        tset = u16(2) + u16(12) + u16(256) + u16(1) + u16(315) + u16(65535)
+        val = (bytes([len(cap)]) if len(cap) < 255 else b'\xff' + u16(len(cap))) + cap
+        body = val + bytes((4 - len(val) % 4) % 4)
+        dset = u16(256) + u16(4 + len(body)) + body
+        return u16(10) + u16(16 + len(tset) + len(dset)) + u32(1700000000) + u32(1) + u32(7) + tset + dset
+    sfl, meta = [], []      # meta: (path, frame, capture length)
+    frames = []
     for a, _ in base[:dict(quick=14, thorough=150)[chk.tier]]:
         _, d = payload_of(a)
-        d = d[:400]
+        frames.append(d[:400])
+    for d in frames:
         for n in range(len(d) + 1):
             sfl.append('pipe sflow none =0a000009 #18c7 #1 =' + sflow_dgram(len(d), d[:n]).hex())
-            meta.append((d, n))
+            meta.append(('sflow', d, n))
+    nsf = len(sfl)
+    # ... and the same frames as IPFIX dataLinkFrameSection values (element 315) through the real netflow:// pipe; there
+    # `bytes` falls back to the length of the section, which is the capture's: not a field of the frame, not compared.
+    # Captures of at least 4 bytes: the padding behind a shorter value would be as long as a record of this template
+    # (RFC 7011 wants padding shorter than any record) and would be decoded as further, empty records.
+    for d in frames:
+        for n in range(4, len(d) + 1):
+            sfl.append('pipe netflow none =0a000009 #7d0 #1 =' + ipfix_dgram(d[:n]).hex())
+            meta.append(('ipfix', d, n))
     so = impl_run(chk.harness, sfl, timeout=120.0)
     chk.evals += len(sfl)
-    chk.count('sFlow raw header records at every capture length, judged on the outputs', len(sfl))
+    chk.count('sFlow raw header records at every capture length, judged on the outputs', nsf)
+    chk.count('IPFIX dataLinkFrameSection values at every capture length, judged on the outputs and compared with the model', len(sfl) - nsf)
+    mo = model_run('C06', sfl[nsf:])
+    badm = [(a, o, m) for a, o, m in zip(sfl[nsf:], so[nsf:], mo) if o != m]
+    me.GEN = 'C06'
+    resolve_scope_b(chk, me, badm, 'ipfix-315', {}, None, None)
+    me.GEN = 'C10'
     full = {}
-    for (d, n), o in zip(meta, so):
+    for (path, d, n), o in zip(meta, so):
         if n == len(d):
-            full[d] = columns(o)
+            full[(path, d)] = columns(o)
     SKIP = ('#1e', '#1d', '#67', '#68')
-    prevc, prevd = None, None
-    for (d, n), a, o in zip(meta, sfl, so):
-        c, ref = columns(o), full.get(d)
+    prevc, prevk = None, None
+    for (path, d, n), a, o in zip(meta, sfl, so):
+        c, ref = columns(o), full.get((path, d))
+        if path == 'ipfix' and c is not None and ref is not None:
+            c, ref = dict(c), dict(ref)
+            c.pop('#9', None)
+            ref.pop('#9', None)
         if n > 14:
             chk.nontrivial.add(hashlib.sha1(a.encode()).digest()[:8])
         why = None
         if c is None or ref is None:
-            why = 'a flow sample with a raw header record did not yield one message'
+            why = 'the datagram did not yield one message'
         else:
             for k, v in c.items():
                 if k in SKIP:
@@ -268,7 +301,7 @@ def run(chk):
                 why = 'the layer stack of the cut capture is not a prefix of the complete one'
         # ... and what a shorter capture reported, the longer one reports too (same value, or a longer list): the columns
         # of a header that lies completely inside the capture do not depend on what follows it
-        if why is None and n > 0 and prevc is not None and prevd == d:
+        if why is None and prevc is not None and prevk == (path, d, n - 1):
             for k, v in prevc.items():
                 if k in ('#1e', '#1d'):
                     continue
@@ -277,8 +310,9 @@ def run(chk):
                 if c.get(k, [])[:len(v)] != v:
                     why = 'column %s was %s at %d bytes and is %s at %d bytes' % (k, v, n - 1, c.get(k), n)
                     break
-        prevc, prevd = c, d
+        prevc, prevk = c, (path, d, n)
         if why:
             chk.record('scopeA', dict(concrete=True, input=a, capture_length=n, frame=d.hex(), impl=o[:1500],
-                       what='sFlow raw header captured at %d of %d bytes: %s (every reported field must equal the frame\'s true value or be left unset)' % (n, len(d), why)), {})
+                       what='%s captured at %d of %d bytes: %s (every reported field must equal the frame\'s true value or be left unset)'
+                            % ('sFlow raw header' if path == 'sflow' else 'IPFIX dataLinkFrameSection', n, len(d), why)), {})
     return chk.finish(me)
